@@ -345,8 +345,8 @@ def consumer_checks(ctx, ob, P):
         for m in ("update_next_end_service_without_server", "update_next_end_service_with_server", "update_next_renege_time"):
             cls, fn = v.method(m)
             for sc in scans.find_scans(fn):
-                st = [x for x in sc.arm.body if isinstance(x, ast.Assign) and "possible_next_events" in unparse(x.targets[0])]
-                if len(st) != 1 or not isinstance(st[0].value, ast.Tuple) or unparse(st[0].value.elts[1]) != sc.key:
+                sr = scans.stored_result(sc, fn)
+                if sr is None or not sr["date_ok"]:
                     ctx.violation(ob, "R6.argmin", "%s.%s" % (cls.name, m), unparse(sc.arm)[:80], "scan-result-not-stored", "the candidate event must carry the scanned minimum date", loc(sc.arm))
 
 
